@@ -24,6 +24,22 @@ ANALYZE_SAMPLES = [
 ]
 
 
+def wide_sources(rng, n):
+    """statements with 10-14 distinct parenthesised groups (each statement's expression text
+    must be carried over unchanged)"""
+    out = []
+    for k in range(n):
+        m = rng.randint(10, 14)
+        terms = ["a(i+%d)" % j if j % 3 else "(b%d*c + %d)" % (j, j) for j in range(1, m + 1)]
+        stmt = "      y = " + " + ".join(terms[:6]) + "\n     & + " + " + ".join(terms[6:])
+        free = "  y = " + " + ".join(terms)
+        call = "  call foo(" + ", ".join("f(x+%d)" % j for j in range(1, m + 1)) + ")"
+        out.append(("subroutine w%d\n%s\n%s\nend subroutine w%d\n" % (k, free, call, k), True))
+        # (fixed form would need a continuation line, which the nesting co-simulation's own line
+        # classifier does not join: free form only)
+    return out
+
+
 def analyze_case(src, isfree, res, case):
     """analyze in {False, True}: the regenerated text must be the same and must round-trip"""
     from fparser import api
@@ -71,7 +87,7 @@ def run_case(case):
     if case.get("analyze"):
         for src in ANALYZE_SAMPLES:
             analyze_case(src, True, res, case)
-    for src, isfree in CN.gen_sources(rng, case["n"]):
+    for src, isfree in (wide_sources(rng, 3) if case.get("analyze") else []) + list(CN.gen_sources(rng, case["n"])):
         n += 1
         if n % 4 == 0:
             analyze_case(src, isfree, res, case)
@@ -97,10 +113,28 @@ def run_case(case):
         elif r["c19"] is True and r.get("c19_struct") is False:
             res["findings"].append({"signature": "roundtrip-structure-differs", "what": "same text but different block structure after re-parse", "replay": rp})
         # expression text carried over: every printed statement == its source statement (token-wise)
-        if r["real"][0] == "ok" and isfree:
+        if r["real"][0] == "ok":
             tree, _ = CN.parse1(src, isfree)
             printed = [l for l in str(tree).split("\n")[1:] if l.strip()]
-            srcl = [l for l in src.split("\n") if l.strip() and not l.lstrip().startswith("!")]
+            if isfree:
+                srcl = [l for l in src.split("\n") if l.strip() and not l.lstrip().startswith("!")]
+            else:
+                # fixed form: join continuation lines (column 6), drop comment lines
+                srcl = []
+                for l in src.split("\n"):
+                    if not l.strip() or l[:1] in "cC*!":
+                        continue
+                    if len(l) > 5 and l[5] not in " 0" and l[:5].strip() == "" and srcl:
+                        srcl[-1] += l[6:]
+                    else:
+                        srcl.append(l)
+                pl2 = []
+                for l in printed:
+                    if len(l) > 5 and l[5] not in " 0" and l[:5].strip() == "" and pl2:
+                        pl2[-1] += l[6:]
+                    else:
+                        pl2.append(l)
+                printed = pl2
             if len(printed) == len(srcl):
                 pairs = []
                 for a, b in zip(srcl, printed):
